@@ -69,7 +69,7 @@ func trunc(s string) string {
 	return s
 }
 
-// RunKit runs the table; mounting is "bare", "prefixed" or "bare+filters".
+// RunKit runs the table; mounting is "bare", "prefixed", "bare+filters" or "bare+strict" (a client with strict response deserialization).
 func RunKit(run *ev.Run, mounting string) {
 	rec := &kit.Recorder{}
 	s := kit.NewServer(nil)
@@ -114,7 +114,7 @@ func RunKit(run *ev.Run, mounting string) {
 		{"batch_get", 200, false, func(t *kit.Typed) (*kit.Wire, error) { _, w, e := t.BatchGet("things", "/things", []string{"a", "b"}); return w, e }},
 		{"batch_delete", 200, false, func(t *kit.Typed) (*kit.Wire, error) { _, w, e := t.BatchDelete("things", "/things", []string{"a", "b"}); return w, e }},
 		{"batch_update", 200, false, func(t *kit.Typed) (*kit.Wire, error) {
-			_, w, e := t.BatchUpdate("things", "/things", map[string][]byte{"a": body})
+			_, w, e := t.BatchUpdate("things", "/things", map[string][]byte{"a": body, "b": body})
 			return w, e
 		}},
 		{"batch_create", 200, false, func(t *kit.Typed) (*kit.Wire, error) { _, w, e := t.BatchCreate("things", "/things", [][]byte{body, body}); return w, e }},
@@ -128,6 +128,10 @@ func RunKit(run *ev.Run, mounting string) {
 	var outcomes []outcome
 	outcomes = append(outcomes, outcome{"success", func() kit.Outcome { return kit.Outcome{} }})
 	outcomes = append(outcomes, outcome{"success-overridden-status", func() kit.Outcome { return kit.Outcome{Status: 202} }})
+	// a batch call in which every key failed is still a successful call: 200, per-key errors, empty results
+	outcomes = append(outcomes, outcome{"success-every-batch-key-failed", func() kit.Outcome {
+		return kit.Outcome{BatchErrors: map[string]*common.ErrorResponse{"a": {Status: p32(404), Message: ps("no a")}, "b": {Status: p32(500)}}}
+	}})
 	outcomes = append(outcomes, outcome{"typed-nil", func() kit.Outcome { return kit.Outcome{NilEntity: true} }})
 	outcomes = append(outcomes, outcome{"plain-error", func() kit.Outcome { return kit.Outcome{Err: errors.New("disk 100% full: \"sda\" é")} }})
 	outcomes = append(outcomes, outcome{"panic", func() kit.Outcome { return kit.Outcome{DoPanic: true, Panic: "something went wrong 50%"} }})
@@ -165,7 +169,7 @@ func RunKit(run *ev.Run, mounting string) {
 				}
 			}
 			rec.Script = func(*kit.Invocation) kit.Outcome { return o }
-			t := &kit.Typed{Base: base, Transport: &http.Transport{DisableKeepAlives: true}}
+			t := &kit.Typed{Base: base, Transport: &http.Transport{DisableKeepAlives: true}, Strict: mounting == "bare+strict"}
 			w, err := m.call(t)
 			inv := rec.Drain()
 			run.Eval(1)
